@@ -377,8 +377,8 @@ var explosive bool
 // Wall-clock guards (they can only turn "all interleavings" into "all schedules up to the completed bound",
 // reported as exhaustive=false; they never produce or suppress a violation that was found): one combination
 // may take comboTime for its unbounded exploration, and a worker that has run for workerTime stops
-// attempting unbounded explorations. The unchanged tree needs about 10 s per worker in total.
-var comboTime, workerTime = 20 * time.Second, 150 * time.Second
+// attempting unbounded explorations. The unchanged tree needs about 10-40 s per worker in total and about 15 s for its largest combination.
+var comboTime, workerTime = 120 * time.Second, 600 * time.Second
 var workerStart = time.Now()
 
 type comboResult struct {
